@@ -112,6 +112,8 @@ fn main() {
                 "huge" => Req::Big(id, "x".repeat(limit + (1 << 20))),
                 // a reply that is still being received when the time limit ends (with SBX_SLOW_STDOUT)
                 "blob" => Req::Blob(id, 6 << 20, timeout_ms / 2),
+                // a reply of 17 MiB, well inside the memory limit, answered at once
+                "wide" => Req::Blob(id, 17 << 20, 0),
                 _ => { println!("bad-op"); continue; }
             };
             let fut = sandbox.execute(req);
